@@ -147,7 +147,13 @@ def main(argv):
                 os.remove(os.path.join(EVID, "replay", f))
 
     # ---- 1. proofs ----
-    if cfg.get("scan"):
+    pre_infra = []
+    if cfg.get("scan") == 'ast':
+        # regenerates coq/gen/SupportGen.v from /repo's Support.h through clang's JSON AST
+        rc, out, _ = pipeline.sh([sys.executable, os.path.join(VERIF, "gen", "ast2coq.py")], timeout=600)
+        if rc != 0:
+            pre_infra.append(("gen/ast2coq.py cannot translate Support.h any more (construct outside the translated fragment)", out[-3000:]))
+    elif cfg.get("scan"):
         import scan_sites
         scan_sites.main()          # regenerates coq/gen/Sites.v and Shared.v from /repo's current headers
     bad = pipeline.hygiene_gate()
@@ -186,7 +192,7 @@ def main(argv):
     by_id = {c.cid: c for c in cases}
     total_lines = sum(len(c.lines) for c in cases)
     diffs = []
-    infra = []
+    infra = list(pre_infra)
     extra_distinct = set()
     if "model_error" in res and "model" not in res:
         infra.append(("model does not build/run", res["model_error"]))
